@@ -212,6 +212,7 @@ package v2
 //@   ensures[positioned_at_end_after_success] err == nil ==> fpos(fw.file) == flen(fw.file)
 //@   ensures[C25:positioned_at_end_after_failure] err != nil ==> fpos(fw.file) == flen(fw.file)
 //@   ensures[C25:failed_flush_keeps_entries] err != nil ==> len(fw.buffer.entries) == old(len(fw.buffer.entries))
+//@   ensures[buffer_emptied_by_every_flush_attempt] len(fw.buffer.entries) == 0 && (old(len(fw.buffer.entries)) > 0 ==> fw.buffer.currentSize == 0)
 //@   ensures[empty_buffer_untouched] old(len(fw.buffer.entries)) == 0 ==> fw.buffer.currentSize == old(fw.buffer.currentSize)
 //@   ensures[flushed] err == nil ==> len(fw.buffer.entries) == 0 && (old(len(fw.buffer.entries)) > 0 ==> fw.buffer.currentSize == 0)
 
